@@ -264,3 +264,45 @@ pub fn build_tree(v: &Value) -> Result<HctlTreeNode, String> {
         _ => return Err(format!("unknown op {op}")),
     })
 }
+
+/// The full relation of a raw set: tuples [colour, state, x_1, ..., x_k] (x_i = value of the i-th
+/// auxiliary copy of the state variables).
+pub fn explicit_full(bdd: &Bdd, ctx: &SymbolicContext, bn: &BooleanNetwork, k: usize) -> Vec<Vec<u64>> {
+    let rows = colour_rows(ctx, bn);
+    let svars = ctx.state_variables().clone();
+    let n = svars.len();
+    let p = rows.len();
+    assert!(p + n * (k + 1) <= 16, "too large for a full dump");
+    let copies: Vec<Vec<BddVariable>> = (0..k)
+        .map(|i| bn.variables().map(|v| ctx.extra_state_variables(v)[i]).collect())
+        .collect();
+    let mut val = BddValuation::all_false(bdd.num_vars());
+    let mut out = Vec::new();
+    let total_h = 1u64 << (n * k);
+    for c in 0..(1u64 << p) {
+        for (j, r) in rows.iter().enumerate() {
+            val.set_value(*r, (c >> j) & 1 == 1);
+        }
+        for h in 0..total_h {
+            for i in 0..k {
+                let hv = (h >> (i * n)) & ((1 << n) - 1);
+                for (j, v) in copies[i].iter().enumerate() {
+                    val.set_value(*v, (hv >> j) & 1 == 1);
+                }
+            }
+            for s in 0..(1u64 << n) {
+                for (j, v) in svars.iter().enumerate() {
+                    val.set_value(*v, (s >> j) & 1 == 1);
+                }
+                if bdd.eval_in(&val) {
+                    let mut tup = vec![c, s];
+                    for i in 0..k {
+                        tup.push((h >> (i * n)) & ((1 << n) - 1));
+                    }
+                    out.push(tup);
+                }
+            }
+        }
+    }
+    out
+}
